@@ -40,6 +40,47 @@ func isAuthError(err error) bool {
 
 // ---- L1 -------------------------------------------------------------------------------------------
 
+// lookAlikes are strangers whose address bytes resemble a role holder's: the same leading
+// bytes with more bytes behind them (module-derived accounts are 32 bytes long), one byte
+// less, a zero byte more, or only the first 20 bytes of a longer address.
+func lookAlikes(holders []string) []string {
+	hrp := sdk.GetConfig().GetBech32AccountAddrPrefix()
+	var out []string
+	seen := map[string]bool{}
+	for _, h := range holders {
+		seen[h] = true
+	}
+	for _, h := range holders {
+		a, err := sdk.AccAddressFromBech32(h)
+		if err != nil {
+			continue
+		}
+		var vs [][]byte
+		vs = append(vs, append(append([]byte{}, a...), bytes.Repeat([]byte{0x5a}, 32-minInt(len(a), 31))...)[:maxInt(32, len(a)+1)])
+		vs = append(vs, append(append([]byte{}, a...), 0))
+		if len(a) > 1 {
+			vs = append(vs, append([]byte{}, a[:len(a)-1]...))
+		}
+		if len(a) > 20 {
+			vs = append(vs, append([]byte{}, a[:20]...))
+		}
+		for _, v := range vs {
+			if s := bech(hrp, v); !seen[s] {
+				seen[s] = true
+				out = append(out, s)
+			}
+		}
+	}
+	return out
+}
+
+func maxInt(a, b int) int {
+	if a > b {
+		return a
+	}
+	return b
+}
+
 func TestC12L1(t *testing.T) {
 	rec := evid.For("C12")
 	runRapid(t, 1500, 20000, func(rt *rapid.T) {
@@ -50,6 +91,9 @@ func TestC12L1(t *testing.T) {
 		for i := 0; i < 5; i++ {
 			users = append(users, henv.MakeUser(fmt.Sprintf("c12-%d", i)))
 		}
+		// one account with a 32-byte address (a module-derived account can hold a role as well)
+		long := sdk.AccAddress(append(append([]byte{}, users[4].Addr...), bytes.Repeat([]byte{7}, 12)...))
+		users[4] = henv.User{Addr: long, Str: long.String()}
 		type bridge struct {
 			id                   uint64
 			proposer, challenger string
@@ -77,7 +121,14 @@ func TestC12L1(t *testing.T) {
 			for _, u := range users {
 				cands = append(cands, u.Str)
 			}
+			lookalike := false
+			if rapid.IntRange(0, 5).Draw(rt, "lookalike") == 0 {
+				cands, lookalike = lookAlikes([]string{e.Authority, b.proposer, b.challenger}), true
+			}
 			signer := cands[rapid.IntRange(0, len(cands)-1).Draw(rt, "signer")]
+			if lookalike {
+				c.Class("L1/signer-resembling-a-role-holder")
+			}
 			other := users[rapid.IntRange(0, 4).Draw(rt, "newholder")].Str
 			kind := rapid.SampledFrom([]string{"propose", "delete", "updateProposer", "updateChallenger", "updateBatchInfo", "updateMetadata", "updateOracle", "updateParams"}).Draw(rt, "msg")
 			var msg sdk.Msg
@@ -236,6 +287,10 @@ func TestC12L2(t *testing.T) {
 			cands = append(cands, formerAdmin...)
 			for _, u := range users {
 				cands = append(cands, u.Str)
+			}
+			if rapid.IntRange(0, 6).Draw(rt, "lookalike") == 0 {
+				cands = lookAlikes(append([]string{authority, admin}, executors...))
+				c.Class("L2/signer-resembling-a-role-holder")
 			}
 			signer := cands[rapid.IntRange(0, len(cands)-1).Draw(rt, "signer")]
 			kind := rapid.SampledFrom([]string{"deposit", "setBridgeInfo", "updateOracle", "addValidator", "removeValidator", "updateParams", "spendFeePool", "execute", "execute", "plan"}).Draw(rt, "msg")
@@ -444,6 +499,28 @@ func TestC12L2(t *testing.T) {
 				msg, err := opchildtypes.NewMsgExecuteMessages(signer, inner)
 				if err != nil {
 					panic(err)
+				}
+				if signer == admin && allAuthority && allValid && n >= 2 && rapid.IntRange(0, 2).Draw(rt, "abort") == 0 {
+					// the same batch run by a caller under a gas limit that is used up after the first inner message:
+					// the batch is aborted (out of gas is a panic) and must leave nothing in the context it ran on
+					first, _ := opchildtypes.NewMsgExecuteMessages(signer, inner[:1])
+					var g1, gN uint64
+					branchL2(l2, func(b *henv.L2) { g1 = b.HandleInPlace(first, 50_000_000).Gas })
+					branchL2(l2, func(b *henv.L2) { gN = b.HandleInPlace(msg, 50_000_000).Gas })
+					if g1+1 < gN {
+						limit := uint64(rapid.Uint64Range(g1, gN-1).Draw(rt, "gaslimit"))
+						branchL2(l2, func(b *henv.L2) {
+							pre := b.Digest()
+							r := b.HandleInPlace(msg, limit)
+							if r.OK() {
+								return
+							}
+							c.Class("L2/batch-aborted-by-gas-after-its-first-message")
+							if d := b.Digest(); d != pre {
+								fail("batched execution %v aborted (%v) under gas limit %d (first message alone needs %d, all need %d) left writes of its earlier messages in the context it ran on", desc, r.Err, limit, g1, gN)
+							}
+						})
+					}
 				}
 				r := l2.Deliver(msg)
 				log = append(log, fmt.Sprintf("execute%v by %s [admin=%v former=%v] -> %v", desc, short(signer), signer == admin, former, r.Err))
